@@ -20,7 +20,7 @@ def run(tier):
     R.assume("A1", "A2", "A3", "A7")
     R.assume(intcall.AXIOM_TEXT)
     R.assume("the error-bound clause is NOT proved: it is covered by a bounded native family only (listed under coverage.bounded); the constant K and the problem's own amplification are not derived")
-    R.assume("Richardson-extrapolated wrappers: retry logic (recursive __call__) is covered by the native family only")
+    R.assume("Richardson-extrapolated wrappers: __call__ is verified with adaptive_richardson returning the whole requested step (fixed-step basis; its extrapolation part is C01) and the recursive retry replaced by the wrapper's own contract (induction on the retry depth); termination of its halving / doubling loops = the proved progress condition + geometric approach of a fixed non-zero bound (not mechanised)")
     R.trust("z3", "pyvc executor", "transcendental axioms listed in assumptions")
     src = source.load_all()
     reg = solver.Registry(solver.THOROUGH_TIMEOUT_MS if tier == "thorough" else 20000)
@@ -28,6 +28,7 @@ def run(tier):
     try:
         C03.integrator_contracts(R, reg, src, PID)
         R.under_contract(intcall.check_controller_error_measure(reg, src, PID))
+        R.under_contract(intcall.check_richardson_call(reg, src, PID))
         for fi in IC.verify_helpers(src, reg, PID):
             R.under_contract(fi)
         R.under_contract(src.func(IC.F, "OdeSystem.integrate"))
